@@ -18,6 +18,7 @@ type ConcParams struct {
 	Backup   bool // one task calls Backup into a fresh directory
 	NoList   bool
 	NoZPop   bool
+	Close    bool // one task calls Close (and possibly Close again) while the others run
 }
 
 // Conc generates a program whose steps are spread over tasks.  Write
@@ -87,6 +88,13 @@ func Conc(r *core.Rng, p ConcParams) *prog.Program {
 		t := pg.Tasks
 		pg.Tasks++
 		pg.Steps = append(pg.Steps, prog.Step{K: prog.SBackup, Task: t, DB: 0, Dir: "/backup"})
+	}
+	if p.Close {
+		t := pg.Tasks
+		pg.Tasks++
+		for i := r.Range(1, 2); i > 0; i-- {
+			pg.Steps = append(pg.Steps, prog.Step{K: prog.SClose, Task: t, DB: r.Intn(pg.DBs)})
+		}
 	}
 	// shuffle so that step ids do not encode the task order
 	for i := len(pg.Steps) - 1; i > 0; i-- {
